@@ -188,8 +188,9 @@ class ADsaComputation(VariableComputation):
             # If a variable has no neighbors, we must select its final value immediately.
             # We also do not need to setup a periodic action.
             if hasattr(self._variable, "cost_for_val"):
-                value, current_cost = optimal_cost_value(self._variable, self.mode)
-                self.value_selection(value, current_cost)
+                # Unary constraints, if any, count together with the own cost.
+                values, current_cost = self.find_best_values({})
+                self.value_selection(random.choice(values), current_cost)
                 if self.logger.isEnabledFor(logging.INFO):
                     self.logger.info(
                         f"ADSA starts: initial value {self.current_value} "
